@@ -223,6 +223,11 @@ to /repo; the later evaluations ran in scratch worktrees through `VERIF_REPO`). 
   a label), C05/r6m2 (two sections of one name, one of them without byte intervals - the builder names sections
   uniquely), C06/r6m3 and C11/r6m1 (reachable only through the internal `_modify` API on one cache, or through a function
   whose returning blocks carry different return edges, which the builder's CFG never has). What the agents reported about the
+  A false alarm of this round: the recorded C02 finding 'end label captured by the proxy' used to be matched on the
+  outcome alone, which hid C02/r6m1 behind it; recognising it on the input (function-less block, or a patch ending in a
+  label) was too narrow - the thorough tier on the unchanged tree found a third shape (a batch that puts a `ret` at the
+  block's end) - and was widened to 'the batch puts code into the label's block' before the clean-tree sweep was
+  accepted. What the agents reported about the
   *unchanged* tree is in `notes/round6/`; the one that a check now reproduces is recorded (C13: a patch with the
   labels `.Lr` and `.Lr_2` cannot be inserted three times), the others repeat §9.6 or are listed there.
 
